@@ -2,22 +2,22 @@
 # usage: tools/confirm_seed.sh <ID>   — confirms a sub-agent's seeded change in its scratch worktree /tmp/seed/<ID>
 # (tests pass with the change at both pointer sizes; demo fails with it and passes without it), then copies it to /verif/seeded/<ID>/.
 set -u
-ID="$1"; W="/tmp/seed/$ID"
+ID="$1"; ROOTDIR="${SEEDROOT:-/tmp/seed}"; SUF="${SEEDSUFFIX:-}"; W="$ROOTDIR/$ID"
 cd "$W" || exit 2
 export CARGO_NET_OFFLINE=true
-git diff -- src Cargo.toml > /tmp/seed/$ID.current.diff
-if ! cmp -s /tmp/seed/$ID.current.diff seed/patch.diff; then echo "$ID: patch.diff differs from the applied change"; fi
+git diff -- src Cargo.toml > $ROOTDIR/$ID.current.diff
+if ! cmp -s $ROOTDIR/$ID.current.diff seed/patch.diff; then echo "$ID: patch.diff differs from the applied change"; fi
 T4=$(cargo test --offline 2>&1 | grep -E "^test result" | head -1)
 T8=$(PYXIS_TEST_POINTER_SIZE=8 cargo test --offline 2>&1 | grep -E "^test result" | head -1)
-sh seed/demo.sh >/tmp/seed/$ID.demo_with.log 2>&1; WITH=$?
+sh seed/demo.sh >$ROOTDIR/$ID.demo_with.log 2>&1; WITH=$?
 git apply -R seed/patch.diff
-sh seed/demo.sh >/tmp/seed/$ID.demo_without.log 2>&1; WITHOUT=$?
+sh seed/demo.sh >$ROOTDIR/$ID.demo_without.log 2>&1; WITHOUT=$?
 git apply seed/patch.diff
 echo "$ID tests4=[$T4] tests8=[$T8] demo_with_change_exit=$WITH demo_without_exit=$WITHOUT"
 case "$T4$T8" in *"62 passed; 0 failed"*"62 passed; 0 failed"*) ;; *) echo "$ID: TESTS DO NOT PASS"; exit 1;; esac
 [ "$WITH" -ne 0 ] && [ "$WITHOUT" -eq 0 ] || { echo "$ID: DEMO DOES NOT DISCRIMINATE"; exit 1; }
-mkdir -p /verif/seeded/$ID
-cp seed/patch.diff seed/demo.sh seed/meta.json /verif/seeded/$ID/
-cp seed/seed_demo.rs /verif/seeded/$ID/ 2>/dev/null
-tail -5 /tmp/seed/$ID.demo_with.log > /verif/seeded/$ID/demo_with_change.tail.txt
+mkdir -p /verif/seeded/$ID$SUF
+cp seed/patch.diff seed/demo.sh seed/meta.json /verif/seeded/$ID$SUF/
+cp seed/seed_demo.rs /verif/seeded/$ID$SUF/ 2>/dev/null
+tail -5 $ROOTDIR/$ID.demo_with.log > /verif/seeded/$ID$SUF/demo_with_change.tail.txt
 echo "$ID confirmed"
